@@ -151,6 +151,8 @@ def gen_case(rng, variant=None, force=None):
          "t0": t0, "interval": interval, "dt": dt, "qconst": qconst,
          "xu": [[[fstr(v) for v in p] for p in frm] for frm in xu], "cond": cond, "nn": nn,
          "thin": (rng.randint(1, 10 ** 9) if (nn >= 2 and rng.random() < 0.5) else 0)}
+    if nn and rng.random() < 0.5:
+        c["maxnb"] = rng.choice([1, 2, nn, max(1, nn - 1), nn + 1])      # the `max_neighbors` option: shorter than, equal to, longer than the lists
     # call history on ONE Dynamics / LogDynamics object: an earlier relaxation() with another wavenumber, result discarded
     if rng.random() < 0.35:
         c["prior_qconst"] = rng.choice([q for q in ["2pi", "4.0", "7.1", "3.3"] if q != qconst])
@@ -276,11 +278,22 @@ def neighbour_tables(c, snaps, tmp):
             out.append(" ".join([it[0], str(k)] + it[2:2 + k]) + "\n")
         with open(fn, "w") as f:
             f.writelines(out)
-    tabs = []
+    # the neighbour rows the dynamics must use: parsed here from the file text (ids − 1), each row cut to the object's
+    # `max_neighbors` (the documented meaning of that option: only the first max_neighbors listed neighbours count)
+    mx = int(c.get("maxnb", 30))
+    tabs, cur = [], None
     with open(fn) as f:
-        for _ in range(c["T"]):
-            tabs.append(read_neighbors(f, c["N"], 30))
-    return fn, [[[int(x) for x in row[1:1 + int(row[0])]] for row in tab] for tab in tabs]
+        for line in f:
+            it = line.split()
+            if not it:
+                continue
+            if not it[0].isdigit():
+                cur = []
+                tabs.append(cur)
+                continue
+            cn = int(it[1])
+            cur.append([int(x) - 1 for x in it[2:2 + cn]][:mx])
+    return fn, tabs[:c["T"]]
 
 
 def build(c, tmp, coords=None):
@@ -297,7 +310,7 @@ def build(c, tmp, coords=None):
         fn, nbs = neighbour_tables(c, sx, tmp)
     cls = LogDynamics if c["variant"] == "log" else Dynamics
     kw = dict(dt=float(c["dt"]), ppp=np.array(c["ppp"]), diameters={int(k): float(v) for k, v in c["diam"].items()},
-              a=float(c["a"]), cal_type="fast" if c["fast"] else "slow", neighborfile=fn)
+              a=float(c["a"]), cal_type="fast" if c["fast"] else "slow", neighborfile=fn, max_neighbors=int(c.get("maxnb", 30)))
     if mode == "xu":
         obj = cls(xu_snapshots=su, **kw)
     elif mode == "x":
@@ -451,6 +464,7 @@ def judge(run, cases, which):
             run.hist(key, c[key])
         run.hist("selection", "none" if c["cond"] is None else ("const" if const_count(c) else "varying"))
         run.hist("history", "second relaxation() on the object" if c.get("prior_qconst") else "first call")
+        run.hist("max_neighbors", "default" if "maxnb" not in c else ("truncates" if c["maxnb"] < c["nn"] else "not binding"))
         run.hist("cage", bool(c["nn"])); run.hist("cage_cn", "variable" if c.get("thin") else ("fixed" if c["nn"] else "none"))
         qcol = real[:, 2]
         nontriv = c["T"] >= 3 and bool(np.any((qcol > 0) & (qcol < 1)))
